@@ -252,3 +252,56 @@ Definition canonical_sites (g : gen) (nshank : Z) : option (list site) :=
                           (sh, match g with NP1 => c mod 2 | _ => cl end, r, 1)) (zrange NC))
   | None => None
   end.
+
+(* ================= round 4 additions (new names only; nothing above is changed) ================= *)
+
+(* geometry_from_meta(..., nc=nc) without a site table: the index is np.arange(nc) whatever the
+   length of the default geometry (nc is used nowhere else) *)
+Definition geometry_default_nc (g : gen) (nc : nat) : option (geom * list Z) :=
+  match trace_header g 1 with
+  | Some t => Some (t, zrange nc)
+  | None => None
+  end.
+
+(* the `version` argument of the public functions of neuropixel.py: 1, "NPultra" and 2 <= v < 3 select a
+   generation; any other value reaches no branch — adc_shifts raises UnboundLocalError, dense_layout /
+   trace_header KeyError('col'), rc2xy / xy2rc KeyError on CHANNEL_GRID.  None = unsupported. *)
+Definition trace_header_v (v : option gen) (nshank : Z) : option geom :=
+  match v with Some g => trace_header g nshank | None => None end.
+Definition adc_shifts_v (v : option gen) (nc : nat) : option (list Z * list Z) :=
+  match v with Some g => adc_shifts g nc | None => None end.
+
+(* geometry_from_meta with the (col, row, x, y) of an entry computed by an arbitrary function:
+   geometry_unsorted / geometry are the instances f = site_crxy g e (GeometryBy lemmas in Proofs.v) *)
+Definition geometry_unsorted_by (f : site -> option (Z * Z * Z * Z)) (g : gen) (sites : list site)
+  (split : option Z) : option geom :=
+  match map_opt f sites, adc_shifts g (length sites) with
+  | Some q, Some (sh, adc) =>
+      if (length sites <=? NC)%nat then
+        let t := mkgeom (map s_shank sites)
+                        (map (fun p => fst (fst (fst p))) q) (map (fun p => snd (fst (fst p))) q)
+                        (map s_flag sites)
+                        (map (fun p => snd (fst p)) q) (map snd q) sh adc [] in
+        Some (with_ind (gsplit split t))
+      else None
+  | _, _ => None
+  end.
+Definition geometry_by (f : site -> option (Z * Z * Z * Z)) (g : gen) (sites : list site)
+  (split : option Z) (sort : bool) : option (geom * list Z) :=
+  match geometry_unsorted_by f g sites split with
+  | Some t =>
+      if sort then let inds := lexsort t in Some (gmap (gather inds) t, inds)
+      else Some (t, zrange (gsize t))
+  | None => None
+  end.
+
+(* F-C08-b, faithfully: what the geometry-map branch computes for an NPultra entry (shank : x : z : flag).
+   y = z + 20 ; row = (y - 0) / 6 — carried as ROW6 = 6 * row = z + 20, an integer (the row itself is
+   fractional whenever z is on the 6 um pitch) ; col = (x - 0) / 6 when x is on the pitch. *)
+Definition npu_geom_crxy (s : site) : option (Z * Z * Z * Z) :=
+  match xy2c NPU (s_a s) with
+  | Some c => Some (c, s_b s + 20, s_a s, s_b s + 20)       (* (col, ROW6, x, y) *)
+  | None => None
+  end.
+Definition geometry_npu_geom (sites : list site) (split : option Z) (sort : bool) :=
+  geometry_by npu_geom_crxy NPU sites split sort.
